@@ -41,11 +41,13 @@ func init() {
 			},
 			Inbound: []InMsg{{QoS: 1, ID: 7, Topic: "in/1", Body: []byte("inbound-1")}, {QoS: 2, ID: 8, Topic: "in/2", Body: []byte("inbound-2")}},
 			Faults: Faults{WriteCuts: cutsEdge, WriteTimeout: true, WriteErr: true, WriteLost: true, NoResponse: true, Cut: true, CutDrop: true,
-				ReadErr: true, DialErr: true, DialBlock: true, Connacks: [][]byte{{0x20, 2, 0, 3}, {0x20, 2, 0}}},
+				ReadErr: true, DialErr: true, DialBlock: true, CutHalf: true, Connacks: [][]byte{{0x20, 2, 0, 3}, {0x20, 2, 0}}},
+			Hostile: [][]byte{{0xf0, 0}},
 			Horizon: 2500,
 			Final: func(w *World) {
 				w.monitorWire()
 				w.monitorProgress()
+				w.monitorBackoff()
 				w.monitorRequests()
 			},
 		}
@@ -62,7 +64,8 @@ func init() {
 				{Name: "D", Ops: []Op{{Kind: "ping", Quit: quitLater}}},
 			},
 			SubFail: func(f string) bool { return f == "f/2" },
-			Faults:  Faults{Cut: true, CutDrop: true, WriteCuts: cutsEdge, WriteErr: true, NoResponse: true},
+			Faults:  Faults{Cut: true, CutDrop: true, CutHalf: true, WriteCuts: cutsEdge, WriteErr: true, NoResponse: true},
+			Hostile: [][]byte{{0xf0, 0}},
 			Horizon: 2000,
 			Final: func(w *World) {
 				w.monitorWire()
@@ -70,7 +73,7 @@ func init() {
 			},
 		}
 	})
-	mkShutdown := func(closers []ActorSpec, persisted bool) func() *Scenario {
+	mkShutdown := func(closers []ActorSpec, lazy bool) func() *Scenario {
 		return func() *Scenario {
 			actors := []ActorSpec{
 				{Name: "reader", Reader: &ReaderSpec{Backoff: true}},
@@ -80,11 +83,12 @@ func init() {
 			}
 			actors = append(actors, closers...)
 			return &Scenario{
-				Config:    baseConfig(),
-				Actors:    actors,
-				Faults:    Faults{DialBlock: true, NoResponse: true, Cut: true},
-				Horizon:   2000,
-				StepCheck: stepSignals,
+				Config:        baseConfig(),
+				Actors:        actors,
+				Faults:        Faults{DialBlock: true, NoResponse: true, Cut: true},
+				Horizon:       2000,
+				StepCheck:     stepSignals,
+				LazyExchanges: lazy,
 				Final: func(w *World) {
 					w.monitorWire()
 					w.monitorShutdown()
@@ -92,8 +96,9 @@ func init() {
 			}
 		}
 	}
-	register("shutdown1", mkShutdown([]ActorSpec{{Name: "X", Ops: []Op{{Kind: "close"}}}}, true))
-	register("shutdown2", mkShutdown([]ActorSpec{{Name: "X", Ops: []Op{{Kind: "disc"}}}, {Name: "Y", Ops: []Op{{Kind: "close"}}}}, true))
+	register("shutdown1", mkShutdown([]ActorSpec{{Name: "X", Ops: []Op{{Kind: "close"}}}}, false))
+	register("shutdown1lazy", mkShutdown([]ActorSpec{{Name: "X", Ops: []Op{{Kind: "close"}}}}, true))
+	register("shutdown2", mkShutdown([]ActorSpec{{Name: "X", Ops: []Op{{Kind: "disc"}}}, {Name: "Y", Ops: []Op{{Kind: "close"}}}}, false))
 	register("shutdown3", mkShutdown([]ActorSpec{{Name: "X", Ops: []Op{{Kind: "disc", Quit: quitLater}}}, {Name: "Y", Ops: []Op{{Kind: "disc", Quit: quitClosed}}}, {Name: "Z", Ops: []Op{{Kind: "close"}}}}, true))
 }
 
